@@ -845,100 +845,145 @@ fn oracle_replace_all(re: &Regex, text: &str, tmpl: &str, ms: &[regress::Match],
 pub fn c09(rep: &mut Report, n: usize, seed: u64) {
     let mut rng = Rng::new(seed);
     let mut done = 0;
+    c09_periodic(rep, &mut done);
+    crate::scope::dense_candidate_scope(rep, "C09");
     while done < n {
         let Some((flags, pat, re, hays)) = api_regex(&mut rng) else { continue };
         let dump = regress::verif::dump_program(&re);
         let anchored = dump.lines().nth(1) == Some("S anchored");
         for text in hays.iter().take(3).chain(hays.iter().skip(5)) {
             let text: String = text.chars().take(10).collect();
-            let bounds = boundaries(&text);
-            for exec in [Exec::Bt, Exec::Pk] {
-                // the attempt table of this executor
-                let mut att = String::new();
-                for (i, &p) in bounds.iter().enumerate() {
-                    if i > 0 {
-                        att.push(',');
+            c09_one(rep, &flags, &pat, &re, &text, anchored, &mut done);
+        }
+    }
+}
+
+/// Self-overlapping long literals: the literal is a periodic string (period 1..=20 over distinct characters) cut
+/// at every length up to 36, followed by a continuation that rejects some occurrences (`\\b`, `$`, a negative
+/// lookahead for the character that continues the period, a literal terminator); the haystack is a longer stretch
+/// of the same periodic string, so that occurrences overlap at every distance. After a rejected candidate the
+/// search has to resume at the very next position.
+fn c09_periodic(rep: &mut Report, done: &mut usize) {
+    let alphabet: Vec<char> = "abcdefghijklmnopqrstuvwxyz".chars().collect();
+    for period in [1usize, 2, 3, 5, 8, 15, 16, 17, 20] {
+        for len in [period + 1, 15, 16, 17, 18, 24, 32, 33, 36] {
+            if len <= period {
+                continue;
+            }
+            let lit: String = (0..len).map(|k| alphabet[k % period]).collect();
+            let next = alphabet[len % period];
+            for cont in ["\\b".to_string(), "$".to_string(), format!("(?!{})", next), "!".to_string(), String::new()] {
+                let pat = format!("{}{}", lit, cont);
+                let Ok(re) = compile(&pat, "", false) else { continue };
+                let dump = regress::verif::dump_program(&re);
+                let anchored = dump.lines().nth(1) == Some("S anchored");
+                for extra in [0usize, 1, 2] {
+                    let total = len + period * (1 + extra) + extra;
+                    let mut text: String = (0..total).map(|k| alphabet[k % period]).collect();
+                    if extra == 1 {
+                        text.push('!');
                     }
-                    let r = match exec {
-                        Exec::Bt => regress::verif::bt_attempt(&re, &text, p, false),
-                        _ => regress::verif::pk_attempt(&re, &text, p, false),
-                    };
-                    match r {
-                        Some((e, caps)) => {
-                            let mut c = String::new();
-                            fmt_caps(&mut c, &caps);
-                            let _ = write!(att, "{}:{}:{}", p, e, c);
-                        }
-                        None => {
-                            let _ = write!(att, "{}:x", p);
-                        }
+                    if extra == 2 {
+                        text.push_str(" !");
+                        text.push_str(&lit);
                     }
-                }
-                let kind = match (exec, anchored) {
-                    (Exec::Bt, false) => "prefix",
-                    (Exec::Bt, true) => "anchored",
-                    (_, false) => "pike",
-                    (_, true) => "pikeanch",
-                };
-                // every start on a boundary, plus len+1 and len+5
-                let mut starts = bounds.clone();
-                starts.push(text.len() + 1);
-                starts.push(text.len() + 5);
-                for &start in &starts {
-                    let (ms, more) = find_all(&re, exec, &text, start, 3);
-                    let req = format!(
-                        "iter {} {} {} {} {}",
-                        kind,
-                        start,
-                        text.len(),
-                        bounds.iter().map(|b| b.to_string()).collect::<Vec<_>>().join(","),
-                        att
-                    );
-                    let mut out = fmt_matches(&ms);
-                    out.push_str(" |");
-                    for m in &more {
-                        out.push_str(if *m { " some" } else { " none" });
-                    }
-                    rep.tie(req, out);
-                    done += 1;
-                    let has_empty = ms.iter().any(|m| m.range.is_empty());
-                    rep.case(&format!("{}/{}/{}/{}/{:?}", flags, pat, text, start, exec), ms.len() >= 1);
-                    rep.count(if ms.is_empty() { "no-match" } else if has_empty { "with-empty-match" } else { "nonempty-matches" });
-                    if start > text.len() {
-                        rep.count("start-beyond-end");
-                    }
-                    // property-level invariants on the implementation itself
-                    if start > text.len() && !ms.is_empty() {
-                        rep.violation("impl-vs-spec", "start beyond the end yields matches".into(), format!("{} {} {:?} start={}", flags, pat, text, start));
-                    }
-                    if more.iter().any(|x| *x) {
-                        rep.violation("impl-vs-spec", "iterator not fused".into(), format!("{} {} {:?} start={}", flags, pat, text, start));
-                    }
-                    let mut prev: Option<&regress::Match> = None;
-                    for m in &ms {
-                        if m.start() < start || m.end() > text.len() || !text.is_char_boundary(m.start()) || !text.is_char_boundary(m.end()) {
-                            rep.violation("impl-vs-spec", "match out of range or off boundary".into(), format!("{} {} {:?} start={}", flags, pat, text, start));
-                        }
-                        if let Some(p) = prev {
-                            let ok = p.end() <= m.start() && p.start() < m.start() && (!p.range.is_empty() || m.start() > p.end());
-                            if !ok {
-                                rep.violation("impl-vs-spec", "matches overlap or do not progress".into(), format!("{} {} {:?} start={}", flags, pat, text, start));
-                            }
-                        }
-                        prev = Some(m);
-                    }
-                    if ms.len() > bounds.iter().filter(|b| **b >= start).count() {
-                        rep.violation("impl-vs-spec", "more matches than positions".into(), format!("{} {} {:?} start={}", flags, pat, text, start));
-                    }
-                    // unfold oracle from the attempt table
-                    let want = unfold_oracle(&re, &text, &bounds, start, exec, anchored);
-                    if want != fmt_matches(&ms) {
-                        rep.violation("impl-vs-oracle", format!("iteration differs from lastIndex unfold: want [{}] got [{}]", want, fmt_matches(&ms)), format!("{} {} {:?} start={} {:?}", flags, pat, text, start, exec));
-                    }
+                    rep.count("periodic-literal");
+                    c09_one(rep, "", &pat, &re, &text, anchored, done);
                 }
             }
         }
     }
+}
+
+fn c09_one(rep: &mut Report, flags: &str, pat: &str, re: &Regex, text: &str, anchored: bool, done: &mut usize) {
+    let text: String = text.to_string();
+    let bounds = boundaries(&text);
+    for exec in [Exec::Bt, Exec::Pk] {
+        // the attempt table of this executor
+        let mut att = String::new();
+        for (i, &p) in bounds.iter().enumerate() {
+            if i > 0 {
+                att.push(',');
+            }
+            let r = match exec {
+                Exec::Bt => regress::verif::bt_attempt(re, &text, p, false),
+                _ => regress::verif::pk_attempt(re, &text, p, false),
+            };
+            match r {
+                Some((e, caps)) => {
+                    let mut c = String::new();
+                    fmt_caps(&mut c, &caps);
+                    let _ = write!(att, "{}:{}:{}", p, e, c);
+                }
+                None => {
+                    let _ = write!(att, "{}:x", p);
+                }
+            }
+        }
+        let kind = match (exec, anchored) {
+            (Exec::Bt, false) => "prefix",
+            (Exec::Bt, true) => "anchored",
+            (_, false) => "pike",
+            (_, true) => "pikeanch",
+        };
+        // every start on a boundary, plus len+1 and len+5
+        let mut starts = bounds.clone();
+        starts.push(text.len() + 1);
+        starts.push(text.len() + 5);
+        for &start in &starts {
+            let (ms, more) = find_all(re, exec, &text, start, 3);
+            let req = format!(
+                "iter {} {} {} {} {}",
+                kind,
+                start,
+                text.len(),
+                bounds.iter().map(|b| b.to_string()).collect::<Vec<_>>().join(","),
+                att
+            );
+            let mut out = fmt_matches(&ms);
+            out.push_str(" |");
+            for m in &more {
+                out.push_str(if *m { " some" } else { " none" });
+            }
+            rep.tie(req, out);
+            *done += 1;
+            let has_empty = ms.iter().any(|m| m.range.is_empty());
+            rep.case(&format!("{}/{}/{}/{}/{:?}", flags, pat, text, start, exec), ms.len() >= 1);
+            rep.count(if ms.is_empty() { "no-match" } else if has_empty { "with-empty-match" } else { "nonempty-matches" });
+            if start > text.len() {
+                rep.count("start-beyond-end");
+            }
+            // property-level invariants on the implementation itself
+            if start > text.len() && !ms.is_empty() {
+                rep.violation("impl-vs-spec", "start beyond the end yields matches".into(), format!("{} {} {:?} start={}", flags, pat, text, start));
+            }
+            if more.iter().any(|x| *x) {
+                rep.violation("impl-vs-spec", "iterator not fused".into(), format!("{} {} {:?} start={}", flags, pat, text, start));
+            }
+            let mut prev: Option<&regress::Match> = None;
+            for m in &ms {
+                if m.start() < start || m.end() > text.len() || !text.is_char_boundary(m.start()) || !text.is_char_boundary(m.end()) {
+                    rep.violation("impl-vs-spec", "match out of range or off boundary".into(), format!("{} {} {:?} start={}", flags, pat, text, start));
+                }
+                if let Some(p) = prev {
+                    let ok = p.end() <= m.start() && p.start() < m.start() && (!p.range.is_empty() || m.start() > p.end());
+                    if !ok {
+                        rep.violation("impl-vs-spec", "matches overlap or do not progress".into(), format!("{} {} {:?} start={}", flags, pat, text, start));
+                    }
+                }
+                prev = Some(m);
+            }
+            if ms.len() > bounds.iter().filter(|b| **b >= start).count() {
+                rep.violation("impl-vs-spec", "more matches than positions".into(), format!("{} {} {:?} start={}", flags, pat, text, start));
+            }
+            // unfold oracle from the attempt table
+            let want = unfold_oracle(re, &text, &bounds, start, exec, anchored);
+            if want != fmt_matches(&ms) {
+                rep.violation("impl-vs-oracle", format!("iteration differs from lastIndex unfold: want [{}] got [{}]", want, fmt_matches(&ms)), format!("{} {} {:?} start={} {:?}", flags, pat, text, start, exec));
+            }
+        }
+    }
+
 }
 
 /// The property's own words: repeatedly take the first match at or after a cursor.
